@@ -16,10 +16,11 @@ case is its own replay.
 import contextlib
 import itertools
 import math
+import warnings
 import numpy as np
 from harness import common as C
 
-RULE = ('psd: every shape (m,n) with 1<=m,n<=S (S=7 quick, 9 thorough; all parity pairs, non-square), real '
+RULE = ('psd: every shape (m,n) with 1<=m,n<=S (S=8 quick, 12 thorough; all parity pairs, non-square), real '
         'normal height maps regenerated from a per-case seed, dx log-uniform in [1e-3,1e3], windows None (inputs '
         'crafted for both automatic branches: generic data / zero corners on >=26-sample axes / all-zero small '
         'maps), "hann", "welch" (m>=3), user arrays (ones, random positive); peak: on-grid cosine of every '
@@ -352,7 +353,7 @@ def pred_band(case):
             on_bc = _brms(itf, cfg, r, p, flow=on, fhigh=c2)
             on_bb = _brms(itf, cfg, r, p, flow=on, fhigh=on)
     except Exception as ex:
-        return [('brms_config', f'bandlimited_rms raised {type(ex).__name__}: {ex} under configuration {cfg}')]
+        return [('brms_raises', f'bandlimited_rms raised {type(ex).__name__}: {ex} under configuration {cfg}')]
     vals = [full, full_default, ac, ab, bc, wide, per_lo, lo_c, per_hi, b_up]
     if not all(np.isfinite(v) for v in vals):
         return [('brms', f'non-finite band-limited RMS: {vals}')]
@@ -401,6 +402,9 @@ def pred_methods(case):
     cfg = case['config']
     h = _height(case)
     out = []
+    w0 = _window({**case, 'window': None}, h)[1]
+    if not (np.isfinite(w0).all() and (w0 ** 2).sum() > 0):
+        return []     # the automatic window has sum w^2 = 0 (Hann on a 2-sample axis): outside the property's scope
     try:
         ifg = itf.Interferogram(h.copy(), dx=dx)
         P = ifg.psd()
@@ -427,7 +431,7 @@ def pred_methods(case):
             s = float(itf.bandlimited_rms(r, p, flow=0, fhigh=b))
             t2 = 1 - math.exp(-(4 * math.pi * math.cos(math.radians(10.0)) * s / lam) ** 2)
     except Exception as ex:
-        return out + [('brms_config', f'Interferogram.bandlimited_rms raised {type(ex).__name__}: {ex} under configuration {cfg}')]
+        return out + [('brms_raises', f'Interferogram.bandlimited_rms raised {type(ex).__name__}: {ex} under configuration {cfg}')]
     if abs(v1 - v2) > 1e-12 * max(abs(v2), 1e-300):
         out.append(('ifg_methods', f'Interferogram.bandlimited_rms = {v1!r}, free function on (psd.r, psd.data) = {v2!r}'))
     if abs(t1 - t2) > 1e-9 * max(abs(t2), 1e-300):
@@ -518,7 +522,7 @@ def _seed(rng):
 
 def _psd_cases(ctx):
     rng = ctx.rng
-    S = ctx.scale(7, 9)
+    S = ctx.scale(8, 12)
     if ctx.widen:
         S += 1
     cases = []
@@ -543,7 +547,7 @@ def _psd_cases(ctx):
 
 def _peak_cases(ctx):
     rng = ctx.rng
-    S = ctx.scale(8, 13)
+    S = ctx.scale(9, 14)
     cases = []
     for m, n in itertools.product(range(1, S + 1), repeat=2):
         freqs = [(ky, kx) for ky in range(0, (m - 1) // 2 + 1) for kx in range(0, (n - 1) // 2 + 1)]
@@ -562,7 +566,7 @@ def _parseval_cases(ctx):
     """larger / random shapes, real code only (no Lean DFT)"""
     rng = ctx.rng
     cases = []
-    for _ in range(ctx.scale(60, 600)):
+    for _ in range(ctx.scale(150, 3000)):
         m, n = int(rng.integers(1, 41)), int(rng.integers(1, 41))
         win = [None, 'hann', 'welch', 'user', 'ones'][int(rng.integers(5))]
         if win == 'welch' and m < 3:
@@ -576,7 +580,7 @@ def _parseval_cases(ctx):
 
 def _band_cases(ctx):
     rng = ctx.rng
-    S = ctx.scale(7, 10)
+    S = ctx.scale(8, 13)
     if ctx.widen:
         S += 2
     cases = []
@@ -589,7 +593,7 @@ def _band_cases(ctx):
         for cfg in CONFIGS:
             cases.append({'kind': 'band', 'shape': [m, n], 'dx': _logdx(rng), 'seed': _seed(rng),
                           'window': win(m + 2 * n, m, n), 'data': 'normal', 'config': cfg})
-    for _ in range(ctx.scale(12, 120)):
+    for _ in range(ctx.scale(16, 300)):
         m, n = int(rng.integers(2, 25)), int(rng.integers(2, 25))
         for cfg in CONFIGS:
             cases.append({'kind': 'band', 'shape': [m, n], 'dx': _logdx(rng), 'seed': _seed(rng),
@@ -649,6 +653,12 @@ def _tag_shape(m, n):
 
 
 def correspondence(ctx):
+    with warnings.catch_warnings(), np.errstate(all='ignore'):
+        warnings.simplefilter('ignore')
+        _correspondence(ctx)
+
+
+def _correspondence(ctx):
     import scipy.fft as sfft
     itf, _ = _impl()
     lines = []
@@ -781,7 +791,9 @@ def correspondence(ctx):
             case, p = payload
             m, n = case['shape']
             mod = _parse(row).reshape(m, n)
-            if not _close(p, mod, TOL):
+            if p.shape != mod.shape:
+                ctx.disagree('psd', case, f'psd has shape {p.shape}', f'model psd has shape {mod.shape}')
+            elif not _close(p, mod, TOL):
                 q = np.unravel_index(np.argmax(np.abs(p - mod)), p.shape)
                 ctx.disagree('psd', case, f'psd[{q}] = {p[q]!r}; argmax {np.unravel_index(p.argmax(), p.shape)}',
                              f'model psd[{q}] = {mod[q]!r}; argmax {np.unravel_index(mod.argmax(), mod.shape)}')
@@ -819,12 +831,18 @@ def _first_fail(case):
 
 def search(ctx, hints):
     """property predicates on the real code, smallest shapes first; then seeded random"""
+    with warnings.catch_warnings(), np.errstate(all='ignore'):
+        warnings.simplefilter('ignore')
+        return _search(ctx, hints)
+
+
+def _search(ctx, hints):
     shapes = sorted(itertools.product(range(1, 8), repeat=2), key=lambda s: (s[0] * s[1], s[0] + s[1], s))
     # 1. the integrator must exist under both configurations
     for cfg in CONFIGS:
         f = _first_fail({'kind': 'band', 'shape': [2, 2], 'dx': 1.0, 'seed': 1, 'window': 'ones', 'data': 'normal',
                          'config': cfg})
-        if f and f['item'] == 'brms_config':
+        if f and f['item'] == 'brms_raises':
             return f
     # 2. constant / cosine maps: the peak must sit where the returned axes say
     for (m, n) in shapes:
@@ -850,7 +868,7 @@ def search(ctx, hints):
                 if f:
                     return f
     # 5. methods
-    for (m, n) in [(2, 2), (2, 3), (3, 2), (3, 3), (4, 5)]:
+    for (m, n) in [(3, 3), (3, 4), (4, 3), (4, 5), (5, 4)]:
         for cfg in CONFIGS:
             f = _first_fail({'kind': 'methods', 'shape': [m, n], 'dx': 0.5, 'seed': 5, 'data': 'normal', 'config': cfg})
             if f:
@@ -884,7 +902,9 @@ def replay(inp):
     if not isinstance(case, dict) or case.get('kind') not in PRED:
         print('no replay routine for this input (a model-vs-implementation disagreement without a predicate failure)')
         return False
-    fails = PRED[case['kind']](case)
+    with warnings.catch_warnings(), np.errstate(all='ignore'):
+        warnings.simplefilter('ignore')
+        fails = PRED[case['kind']](case)
     if case['kind'] == 'psd':
         try:
             h, w, ux, uy, p = _real_psd(case)
@@ -918,7 +938,7 @@ MANIFEST_ENTRY = {
              'from the source on every run and proved equal to the model: rotation kinds, coef = S2*fs*fs, which shape entry '
              'feeds which axis, for each integration of bandlimited_rms the axis its step was measured along, the band-mask '
              'comparators, the trapezoid/trapz lookup, the RMS rescale expression, method delegation. Compared on every run: '
-             'model vs prysm psd (all shapes <= 7x7 / 9x9, five window kinds, both automatic branches), bandlimited_rms '
+             'model vs prysm psd (all shapes <= 8x8 / 12x12, five window kinds, both automatic branches), bandlimited_rms '
              '(both NumPy configurations), rescale; property predicates on the real outputs incl. spectral peak location '
              'of on-grid cosines on the returned axes.'),
     'note': ('Partial in these respects: theorems are over R/C, not floats; scipy.fft.fft2 = DFT sum, fftshift/ifftshift/'
